@@ -233,4 +233,53 @@ mod verif_bounded_mdk {
         w.deliver(label, "re-delivery of the removal commit", &rm);
         if fp(&w.sql, &w.gid).state.as_deref() != Some("Inactive") { panic!("BOUNDED-COUNTEREXAMPLE {label}: scenario [history: {}] the evicted SQLite-backed client does not show the group as Inactive", w.log.join(" ; ")); }
     }
+    // C03: a user may hold several leaves (one per client, each joined with its own key package). Removing the USER evicts every one
+    // of their clients: afterwards none of them reads or sends. One of the two clients is memory-backed, the other SQLite-backed.
+    // Scope: one user with two clients joined in both orders, one removal, one later message, the removal re-delivered.
+    #[test]
+    fn removed_user_with_two_clients_history() {
+        use crate::messages::MessageProcessingResult;
+        let label = "mdk_backends_bounded.removed_user_with_two_clients_history";
+        for sqlite_joins_first in [false, true] {
+            let (ak, uk) = (Keys::generate(), Keys::generate());
+            let a = create_test_mdk();
+            let mem = create_test_mdk();
+            let sql = MDK::new(MdkSqliteStorage::new_unencrypted(":memory:").unwrap());
+            let mut log = vec![format!("the user's {} client joins at creation, the other by a later add", if sqlite_joins_first { "SQLite-backed" } else { "memory-backed" })];
+            let (kp_first, kp_second) = if sqlite_joins_first { (create_key_package_event(&sql, &uk), create_key_package_event(&mem, &uk)) } else { (create_key_package_event(&mem, &uk), create_key_package_event(&sql, &uk)) };
+            let res = a.create_group(&ak.public_key(), vec![kp_first], create_nostr_group_config_data(vec![ak.public_key()])).unwrap();
+            let gid = res.group.mls_group_id.clone();
+            a.merge_pending_commit(&gid).unwrap();
+            let z = nostr::EventId::all_zeros();
+            if sqlite_joins_first { let w = sql.process_welcome(&z, &res.welcome_rumors[0]).unwrap(); sql.accept_welcome(&w).unwrap(); } else { let w = mem.process_welcome(&z, &res.welcome_rumors[0]).unwrap(); mem.accept_welcome(&w).unwrap(); }
+            let add = a.add_members(&gid, &[kp_second]).unwrap();
+            a.merge_pending_commit(&gid).unwrap();
+            let wr = &add.welcome_rumors.as_ref().unwrap()[0];
+            if sqlite_joins_first { sql.process_message(&add.evolution_event).unwrap(); let w = mem.process_welcome(&z, wr).unwrap(); mem.accept_welcome(&w).unwrap(); }
+            else { mem.process_message(&add.evolution_event).unwrap(); let w = sql.process_welcome(&z, wr).unwrap(); sql.accept_welcome(&w).unwrap(); }
+            let before = a.create_message(&gid, create_test_rumor(&ak, "while the user is a member")).unwrap();
+            log.push("alice sends a message".into());
+            let rm_ = mem.process_message(&before); let rs_ = sql.process_message(&before);
+            if !matches!(rm_, Ok(MessageProcessingResult::ApplicationMessage(_))) || !matches!(rs_, Ok(MessageProcessingResult::ApplicationMessage(_))) { panic!("harness: both clients of the member must read the message (not a counterexample): {rm_:?} / {rs_:?}"); }
+            let rm = a.remove_members(&gid, &[uk.public_key()]).unwrap().evolution_event;
+            a.merge_pending_commit(&gid).unwrap();
+            log.push("alice removes the user".into());
+            let _ = mem.process_message(&rm); let _ = sql.process_message(&rm);
+            let secret = "sent after the user was removed";
+            let after = a.create_message(&gid, create_test_rumor(&ak, secret)).unwrap();
+            log.push("alice sends a message in the next epoch ; the removal commit is delivered again".into());
+            let (r1, r2) = (mem.process_message(&after), sql.process_message(&after));
+            let _ = mem.process_message(&rm); let _ = sql.process_message(&rm);
+            let scen = log.join(" ; ");
+            if let Ok(MessageProcessingResult::ApplicationMessage(m)) = &r1 { panic!("BOUNDED-COUNTEREXAMPLE {label}: scenario [history: {scen}] the removed user's memory-backed client was handed the plaintext {:?}", m.content); }
+            if let Ok(MessageProcessingResult::ApplicationMessage(m)) = &r2 { panic!("BOUNDED-COUNTEREXAMPLE {label}: scenario [history: {scen}] the removed user's SQLite-backed client was handed the plaintext {:?}", m.content); }
+            let (fm, fs) = (fp(&mem, &gid), fp(&sql, &gid));
+            for (who, f, stored, can_send) in [("memory-backed", &fm, mem.get_messages(&gid, None).unwrap_or_default(), mem.create_message(&gid, create_test_rumor(&uk, "x")).is_ok()),
+                                               ("SQLite-backed", &fs, sql.get_messages(&gid, None).unwrap_or_default(), sql.create_message(&gid, create_test_rumor(&uk, "x")).is_ok())] {
+                if stored.iter().any(|m| m.content == secret) { panic!("BOUNDED-COUNTEREXAMPLE {label}: scenario [history: {scen}] the removed user's {who} client stored the message sent after the removal"); }
+                if f.state.as_deref() != Some("Inactive") { panic!("BOUNDED-COUNTEREXAMPLE {label}: scenario [history: {scen}] the group is {:?} (not Inactive) on the removed user's {who} client", f.state); }
+                if can_send { panic!("BOUNDED-COUNTEREXAMPLE {label}: scenario [history: {scen}] the removed user's {who} client can still create a message for the group"); }
+            }
+        }
+    }
 }
